@@ -254,17 +254,12 @@ func (r *replicator) processHash(ctx context.Context, item processItem) ([]cid.C
 	cprogress := make(chan iface.IPFSLogEntry)
 	defer close(cprogress)
 	go func() {
-		var entry iface.IPFSLogEntry
-		for {
-
-			select {
-			case <-ctx.Done():
-				return
-			case entry = <-cprogress:
-			}
-
+		// the fetcher sends on this unbuffered channel for as long as it
+		// fetches, whatever the state of ctx: keep receiving until the channel
+		// is closed, otherwise the fetcher (and this worker) block for ever
+		for entry := range cprogress {
 			if entry == nil {
-				return
+				continue
 			}
 
 			if err := r.emitters.evtLoadProgress.Emit(NewEventLoadProgress(entry)); err != nil {
